@@ -54,7 +54,7 @@ def instrument(scratch):
     """Purely additive, mechanical edits of the scratch copy. Returns a description list."""
     dropped = []
     for pkg, (crate_dir, cdir) in CONTRACT_DIRS.items():
-        src_c = os.path.join(VERIF, cdir)
+        src_c = os.path.join(os.environ.get('VERIF_CONTRACTS_ROOT', VERIF), cdir)
         if not os.path.isdir(src_c):
             continue
         dst_c = os.path.join(scratch, 'verif_contracts', crate_dir)
